@@ -125,7 +125,7 @@ def build(case):
         npix += n
         outs += [(kind, unit, len(outs) + i) for i, (kind, unit) in enumerate(o)]
         outs = [(kind, unit, i) for i, (kind, unit, _) in enumerate(outs)]
-    if case.get("pixperm"):
+    if case.get("pixperm") and len(case["pixperm"]) == npix:      # (a later rule of the generator may have replaced the blocks)
         # the blocks fed from pixel axes that are not next to each other: pixel axis i of the WCS goes to block input pixperm[i]
         inv_ = [case["pixperm"].index(k) for k in range(npix)]
         t = models.Mapping(tuple(inv_)) | t
